@@ -99,6 +99,14 @@ func infoOf(fn *ssa.Function) *fnInfo {
 	}
 	if fn.Parent() == nil || fn.Synthetic != "" {
 		fi.ext = externals[fi.name]
+		if fi.ext == nil {
+			for _, pe := range patternExternals {
+				if e := pe(fn); e != nil {
+					fi.ext = e
+					break
+				}
+			}
+		}
 	}
 	fi.policy = policyFor(fn)
 	if z := zzLookup(fn); z != nil {
@@ -136,6 +144,7 @@ type sideTables struct {
 	origin  map[*value][]value // &x[i] -> x[i:cap]
 	syncMap map[*value]*omap
 	pool    map[*value][]value
+	concreteRand bool // zzConcreteRand: math/rand draws are n/2 instead of symbolic
 	slept   *term // ghost: total nanoseconds passed to Sleep/After/NewTimer
 }
 
